@@ -1,8 +1,8 @@
 SPECIFICATION Spec
 CONSTANTS
-  ItemCodes = {"Ra", "RB", "Rb", "Rz", "Ga", "Gb", "O", "M", "A"}
+  ItemCodes = {"Ra", "RB", "Rb", "Rz", "Ga", "Gb", "O", "M", "P", "Q", "A"}
   MaxLen = 3
   MaxDev = 2
-  DevTypes = {"sep", "dir", "semi", "cmt", "mline", "range"}
+  DevTypes = {"sep", "dir", "semi", "cmt", "lead", "mline", "range"}
 INVARIANT Emit
 CHECK_DEADLOCK FALSE
